@@ -34,7 +34,8 @@ def one_(name, cache):
     etmp = tempfile.mkdtemp(prefix="vbenev-", dir="/tmp")
     try:
         subprocess.check_call(["rsync", "-a", "--exclude", "target", "--exclude", ".git", "/repo/", tmp + "/"])
-        r = subprocess.run(["patch", "-p1", "--no-backup-if-mismatch", "-s", "-i", os.path.join(d, "patch.diff")], cwd=tmp, capture_output=True, text=True)
+        pf = os.path.join(d, "patch.current.diff") if os.path.exists(os.path.join(d, "patch.current.diff")) else os.path.join(d, "patch.diff")  # re-expressed when a fix: commit touched the same lines
+        r = subprocess.run(["patch", "-p1", "--no-backup-if-mismatch", "-s", "-i", pf], cwd=tmp, capture_output=True, text=True)
         if r.returncode != 0:
             return name, "PATCH DOES NOT APPLY", []
         alarms = []
